@@ -1339,6 +1339,20 @@ def simd_op_lines(rng, b, t, op, n):
             out.append(pre + " " + " ".join(v.hex() for v in xs))
         else:
             out.append("%s %s" % (pre, x.hex()))
+    if op not in ("add", "xor", "and", "or", "andnot", "extract", "insert", "from_lanes", "transpose4"):
+        # operands whose LANES REPEAT (rule 19 for one-operand operations): at every lane width from 32 bits up to half
+        # the vector, the lane sequence a a a a.. / a b a b.. / a a b b.. / a b b a.. — a shortcut that tests "is this
+        # permutation the identity on this operand" with an incomplete predicate is wrong exactly on these
+        lw = 4
+        while lw * 2 <= nb:
+            cnt_l = nb // lw
+            a, b2 = rng.bytes(lw), rng.bytes(lw)
+            pats = [[0] * cnt_l, [i % 2 for i in range(cnt_l)], [(i // 2) % 2 for i in range(cnt_l)],
+                    [(0, 1, 1, 0)[i % 4] for i in range(cnt_l)]]
+            for pat in pats:
+                x = b"".join(b2 if t else a for t in pat)
+                out.append("%s %s" % (pre, x.hex()))
+            lw *= 2
     if op in ("add", "xor", "and", "or", "andnot"):
         # RELATED operand pairs (rule 19 for two-operand operations): y = x, ~x, -x, and — at every group width w from
         # 16 bits up to the whole vector — the pair whose low half-groups sum to exactly 2^(w/2) (carry out) while the
